@@ -397,8 +397,8 @@ MUTANTS = [
     Mutant("storage-validated-late-F33", RIF, "    requires_serialization = _requires_serialization(storage)  # also validates the storage names\n    if run_folder is None and requires_serialization:\n", "    if run_folder is None and _requires_serialization(storage):\n", ("C12.1-wired", "C12.3-no-write"), why="original F33"),
     Mutant("storage-any-short-circuit-F33b", RIF, "    return any([get_storage_class(s).requires_serialization for s in storage.values()])  # noqa: C419\n", "    return any(get_storage_class(s).requires_serialization for s in storage.values())\n", ("C12.1-wired",), why="original F33b"),
     Mutant("load-writes-F03", RIF, "        data[\"defaults\"] = load(Path(data.pop(\"defaults_path\")))\n        return cls(**data)\n", "        data[\"defaults\"] = load(Path(data.pop(\"defaults_path\")))\n        run_info = cls(**data)\n        run_info._write()\n        return run_info\n", ("C12.3-no-write",), why="original F03"),
-    Mutant("write-before-shapes", RIF, "        _check_inputs(pipeline, inputs)\n        internal_shapes = _construct_internal_shapes(internal_shapes, pipeline)\n        shapes, masks = map_shapes(pipeline, inputs, internal_shapes)\n",
-           "        internal_shapes = _construct_internal_shapes(internal_shapes, pipeline)\n        if run_folder is not None:\n            dump(inputs, run_folder / \"inputs.cloudpickle\")\n        _check_inputs(pipeline, inputs)\n        shapes, masks = map_shapes(pipeline, inputs, internal_shapes)\n", ("C12.3-no-write",)),
+    Mutant("write-before-shapes", RIF, "        _check_inputs(pipeline, inputs)\n        shapes, masks = map_shapes(pipeline, inputs, internal_shapes)\n",
+           "        if run_folder is not None:\n            dump(inputs, run_folder / \"inputs.cloudpickle\")\n        _check_inputs(pipeline, inputs)\n        shapes, masks = map_shapes(pipeline, inputs, internal_shapes)\n", ("C12.3-no-write",)),
     Mutant("store-before-fixed-indices", PR, "    _validate_fixed_indices(fixed_indices, inputs, pipeline)\n    run_info = RunInfo.create(", "    run_info = RunInfo.create(", ("C12.1-wired", "C12.3-no-write")),
     Mutant("rmtree-unconditional", RIF, "            if cleanup:\n                _cleanup_run_folder(run_folder)\n            else:\n                _compare_to_previous_run_info(pipeline, run_folder, inputs, internal_shapes)\n",
            "            _compare_to_previous_run_info(pipeline, run_folder, inputs, internal_shapes)\n            _cleanup_run_folder(run_folder)\n", ("C12.3-no-write",)),
